@@ -31,6 +31,8 @@ fn usage() -> ! {
 fn selftests() -> Result<(), String> {
     crypto::selftest()?;
     wire::selftest()?;
+    world::install_quiet_panic_hook();
+    server::extras_selftest()?;
     Ok(())
 }
 
